@@ -409,7 +409,7 @@ func runWorkers(b build, prop string, seed uint64, runs int, budget float64, wor
 				done <- err
 			}()
 			// real-time watchdog: only ever produces exit 2
-			limit := time.Duration(budget*3+120) * time.Second
+			limit := time.Duration(budget*4+600) * time.Second // (generous: the machine may be shared with other jobs; workers stop by themselves at the budget)
 			select {
 			case err := <-done:
 				if err != nil && b.race && workerCompleted(out) {
@@ -588,9 +588,15 @@ func mainProp(prop string, cfg propCfg, tier string, seed uint64, replay, scratc
 		}
 	}
 	bySig := map[string]*replayFile{}
+	// further candidates per signature (other runs that showed it): used, un-minimised, when the
+	// preferred one does not replay exactly (a change that makes some runs depend on map order)
+	alt := map[string][]*replayFile{}
 	for _, r := range a.replays {
 		if o := bySig[r.Signature]; o == nil || tapeLen(r.Tape) < tapeLen(o.Tape) {
 			bySig[r.Signature] = r
+		}
+		if len(alt[r.Signature]) < 6 {
+			alt[r.Signature] = append(alt[r.Signature], r)
 		}
 	}
 	var sigs []string
@@ -660,6 +666,24 @@ func mainProp(prop string, cfg propCfg, tier string, seed uint64, replay, scratc
 			fatal2("%v", err)
 		}
 		status, raw := verifyReplay(b, path, false)
+		for _, c := range alt[s] {
+			if status == "reproduced" {
+				break
+			}
+			if c.RunSeed == rf.RunSeed {
+				continue
+			}
+			fmt.Fprintf(os.Stderr, "vcheck: replay of %s (run %d) diverged (%s), trying run %d\n", s, rf.RunIndex, status, c.RunIndex)
+			os.Remove(path)
+			rf = c
+			name = fmt.Sprintf("%s-%d-%s.json", prop, rf.RunSeed, sanitize(s))
+			path = filepath.Join(verifDir, "replays", name)
+			data, _ = json.MarshalIndent(rf, "", " ")
+			if err := os.WriteFile(path, data, 0o644); err != nil {
+				fatal2("%v", err)
+			}
+			status, raw = verifyReplay(b, path, false)
+		}
 		if status != "reproduced" {
 			fmt.Fprintf(os.Stderr, "vcheck: replay of %s diverged in a fresh process (%s) - tooling trouble, not reported as violation\n%s\n", s, status, tail(raw, 20))
 			toolTrouble = true
